@@ -1,7 +1,8 @@
 ---------------------------- MODULE MC_PGPFrame ----------------------------
 (* Case generator and small-domain theorem checker for PGPFrame.tla (C19).  *)
-(* One state per case: i runs through Lo..Hi (W interleaved chains, so that *)
-(* W workers are busy); in every state TLC                                  *)
+(* One state per case: for every family of Families, i runs through         *)
+(* Lo..Hi in W interleaved chains (several workers are busy, one JVM serves *)
+(* several families); in every state TLC                                    *)
 (*   - checks the spec-level theorems of the family (invariant Theorems),   *)
 (*   - prints the case with the results the RFC prescribes (invariant Emit) *)
 (*     as one JSON line, which checks/c19.py hands to harness/drv_pgp.cc.   *)
@@ -9,10 +10,12 @@
 (* which must equal "exp".                                                  *)
 EXTENDS PGPFrame, Json, TLCExt
 
-CONSTANTS Family,      \* which case family
-          Lo, Hi, W,   \* index range, number of interleaved chains
+CONSTANTS Families,    \* sequence of case families enumerated by this run
+          Lo, Hi, W,   \* index range (cut at the size of a family), number of interleaved chains per family
+          HiR64p, HiPkt, \* last index of the two open-ended families
           Seed         \* varies the pattern strings
-VARIABLE i
+VARIABLES fi, i
+Family == Families[fi]
 
 (* pattern octet strings: length n, variant s *)
 Pat(n, s) == Tup([k \in 1..n |-> (k * 37 + n * 11 + s * 101 + ((k * k) \div 7)) % 256])
@@ -38,6 +41,12 @@ ThmR64(b) ==
   /\ R64Filter(w) = R64Filter(e)
   /\ CRC24(b \o CRC24Octets(b)) = 0                                        \* the CRC is a polynomial remainder
   /\ CRC24(b) < 16777216
+
+(* r64q (quick tier): all strings of length <= 1 and a quarter of the two-octet strings: <<a, b>> with b = a mod 4, *)
+(* so that every b occurs with 64 values of a (the thorough tier runs r64b, all of them)                           *)
+B2q(k) == IF k <= 256 THEN B2(k) ELSE LET j == k - 257  a == j \div 64  c == j % 64 IN <<a, 4 * c + (a % 4)>>
+(* r64pq (quick tier): the lengths up to the first line-wrap boundary + 2 and +-2 around the next three boundaries *)
+QLens == [k \in 1..51 |-> k - 1] \o <<94, 95, 96, 97, 98, 142, 143, 144, 145, 146, 190, 191, 192, 193, 194, 200>>
 
 (* r64p: pattern strings of every length Lo..Hi, with the complete armor (all four block types, with and *)
 (* without a Comment header)                                                                            *)
@@ -121,10 +130,10 @@ ThmLen(k) == LET p == LenOf(k)  e == LenNewP(p)  d == LenNewDecode(e \o <<7, 7>>
   /\ (k > 0 /\ k <= LenExh) => LenNewP(LenOf(k - 1)) # e                    \* injective along the chain
 
 (* lenx, mpix (thorough): the exhaustive ranges continued up to 70000 *)
-CaseLenX(k) == LET p == <<0, LenExh + 1 + k>>  e == LenNewP(p) IN
+CaseLenX(k) == LET p == Pair(LenExh + 1 + k)  e == LenNewP(p) IN
   [op |-> "len", i |-> i, in |-> [n |-> p, os |-> e \o <<7, 7>>],
    exp |-> [enc |-> e, dec |-> DecRec(LenNewDecode(e \o <<7, 7>>))]]
-ThmLenX(k) == LET p == <<0, LenExh + 1 + k>>  e == LenNewP(p)  d == LenNewDecode(e \o <<7, 7>>) IN
+ThmLenX(k) == LET p == Pair(LenExh + 1 + k)  e == LenNewP(p)  d == LenNewDecode(e \o <<7, 7>>) IN
   d.hl = 5 /\ d.len = p /\ ~d.part /\ Len(e) = 5
 
 (* lendec: the decoder on every first octet, with four different continuations and for new and old format *)
@@ -384,6 +393,8 @@ Case == CASE Family = "r64b" -> CaseR64(B2(i))
           [] Family = "r64r" -> CaseR64(RandStr(i))
           [] Family = "lenx" -> CaseLenX(i)
           [] Family = "mpix" -> CaseMpiX(i)
+          [] Family = "r64q" -> CaseR64(B2q(i))
+          [] Family = "r64pq" -> CaseR64P(QLens[i + 1])
 Thm == CASE Family = "r64b" -> ThmR64(B2(i))
          [] Family = "r64p" -> ThmR64(Pat(i, Seed))
          [] Family = "armorbad" -> TRUE
@@ -400,12 +411,31 @@ Thm == CASE Family = "r64b" -> ThmR64(B2(i))
          [] Family = "r64r" -> ThmR64(RandStr(i))
          [] Family = "lenx" -> ThmLenX(i)
          [] Family = "mpix" -> ThmMpiX(i)
+         [] Family = "r64q" -> ThmR64(B2q(i))
+         [] Family = "r64pq" -> ThmR64(Pat(QLens[i + 1], Seed))
 (* number of cases of a family (Hi in the cfg files is computed from these by checks/c19.py: TLC evaluates them) *)
 FamilySize == [r64b |-> 65793, armorbad |-> NArmorBad, len |-> NLen + 1, lendec |-> NLenDec, tagenc |-> 64,
                extract |-> NBodyExtract, partial |-> NPartial, mpi |-> NMpi, mpidec |-> NMpiDec, s2kcount |-> 256,
-               sigdec |-> NSigDec]
+               sigdec |-> NSigDec, r64q |-> 257 + 256 * 64, r64pq |-> Len(QLens),
+               r64r |-> 30000, lenx |-> 70000 - LenExh, mpix |-> 70000 - MpiExh]
 (* the index range actually enumerated: a family of fixed size ends at its last case *)
-Last == IF Family \in DOMAIN FamilySize THEN Min(Hi, FamilySize[Family] - 1) ELSE Hi
+LastOf(fam) == IF fam \in DOMAIN FamilySize THEN Min(Hi, FamilySize[fam] - 1)
+               ELSE IF fam = "r64p" THEN Min(Hi, HiR64p) ELSE IF fam = "pkt" THEN Min(Hi, HiPkt) ELSE Hi
+(* the groups of families that share one TLC run (checks/c19.py) *)
+GrpQ1 == <<"r64q">>
+GrpQ2 == <<"r64pq", "armorbad", "partial", "sigdec">>
+GrpQ3 == <<"len", "lendec", "extract", "tagenc", "mpidec", "s2kcount">>
+GrpQ4 == <<"mpi", "pkt">>
+GrpT1 == <<"r64b">>
+GrpT2 == <<"r64p">>
+GrpT3 == <<"r64r", "lenx", "mpix">>
+GrpT4 == <<"armorbad", "partial", "sigdec", "mpi", "pkt">>
+Single(fam) == <<fam>>
+One_r64b == Single("r64b")  One_r64q == Single("r64q")  One_r64p == Single("r64p")  One_r64pq == Single("r64pq")
+One_r64r == Single("r64r")  One_armorbad == Single("armorbad")  One_len == Single("len")  One_lenx == Single("lenx")
+One_lendec == Single("lendec")  One_tagenc == Single("tagenc")  One_extract == Single("extract")
+One_partial == Single("partial")  One_mpi == Single("mpi")  One_mpix == Single("mpix")  One_mpidec == Single("mpidec")
+One_s2kcount == Single("s2kcount")  One_pkt == Single("pkt")  One_sigdec == Single("sigdec")
 
 (* RFC 4880 6.5 examples and the customary CRC-24 check value: they test the oracle itself *)
 ASSUME Radix64(<<20, 251, 156, 3, 217, 126>>) = <<70, 80, 117, 99, 65, 57, 108, 43>>       \* FPucA9l+
@@ -420,9 +450,9 @@ ASSUME MPI(<<1>>) = <<0, 1, 1>> /\ MPI(<<1, 255>>) = <<0, 9, 1, 255>>
 ASSUME S2KCount(96) = 65536
 ASSUME PktMdc(Rep(0, 20))[1] = 211 /\ PktMdc(Rep(0, 20))[2] = 20                           \* 0xD3 0x14
 
-Init == i \in Lo..(Lo + W - 1) /\ i <= Last
-Next == i + W <= Last /\ i' = i + W
-Spec == Init /\ [][Next]_i
+Init == fi \in 1..Len(Families) /\ i \in Lo..(Lo + W - 1) /\ i <= LastOf(Families[fi])
+Next == i + W <= LastOf(Family) /\ i' = i + W /\ fi' = fi
+Spec == Init /\ [][Next]_<<fi, i>>
 Theorems == Thm
-Emit == PrintT(ToJson(Case))
+Emit == PrintT(ToJson([fam |-> Family, c |-> Case]))
 =============================================================================
